@@ -75,7 +75,8 @@ structure Rec where
   labels : Nat := 0
   /-- DNSKEY: `calculate_key_tag()`; DS: key tag field; NSEC / NSEC3: 1 iff the type bitmap has SOA -/
   tag : Nat := 0
-  /-- DNSKEY / DS: algorithm code -/
+  /-- DNSKEY / DS: algorithm code; NSEC3: 1 iff the record wraps around (owner hash > next hashed owner) — used by a
+  finding-class predicate only -/
   alg : Nat := 0
   /-- DNSKEY / DS: `algorithm().is_supported()` -/
   algSupp : Bool := false
@@ -411,8 +412,13 @@ def allAuthInsecure (ns' : List Rec) (vn : List (GKey × GV)) : Bool :=
   !vn.isEmpty && vn.all fun kv =>
     (groupRecs ns' kv.1).all (·.proof == .insecure) && (groupSigs ns' kv.1).all (·.proof == .insecure)
 
+/-- the authority records handed to `verify_nsec` / `verify_nsec3`.  An NSEC is taken only if its own RRset came out
+Secure (fix 63406ab); an NSEC3 still whenever *some* authority record of the same owner name is Secure (the code as
+it is: for hashed owner names only the NSEC3 RRset and its RRSIGs live there). -/
 def selectDenial (ns' : List Rec) (t : Nat) : List (Rec × Nat) :=
-  ns'.zipIdx.filter fun ri => ri.1.rtype == t && ns'.any fun x => x.name == ri.1.name && x.proof == .secure
+  ns'.zipIdx.filter fun ri => ri.1.rtype == t &&
+    (if t == tNSEC then ri.1.proof == .secure
+     else ns'.any fun x => x.name == ri.1.name && x.proof == .secure)
 
 /-- a record (not just an RRSIG) of the queried type, or a CNAME, at the query name -/
 def answersTheQuestion (q : Query) (an : List Rec) : Bool :=
@@ -588,14 +594,30 @@ def unsignedNsecBesideSigned (trace : List (Query × UpOut)) : Bool :=
     | .ok m | .noRecords m => unsignedNsecBesideSignedIn m.ns
     | _ => false
 
-/-- `C07.ChildSideDsDenialAccepted` (open): a DS exchange answered with an NSEC owned by the queried name, or an NSEC3,
-whose bitmap has SOA (`Rec.tag = 1` for NSEC / NSEC3 records) -/
+/-- `C07.ChildSideDsDenialAccepted` (open): a DS exchange answered with an NSEC owned by the queried name, or an NSEC3
+of the zone named like the queried name (owner `<hash>.<qname>`), whose bitmap has SOA (`Rec.tag = 1` for NSEC / NSEC3
+records): the apex record of the CHILD.  (The parent's own apex NSEC3 — the closest encloser in a parent-side denial —
+has the SOA bit as well, but lives in the parent zone.) -/
 def childSideDsDenial (trace : List (Query × UpOut)) : Bool :=
   trace.any fun e =>
     e.1.qtype == tDS &&
       match e.2 with
       | .ok m | .noRecords m =>
-        m.ns.any fun r => r.tag == 1 && ((r.rtype == tNSEC && r.name == e.1.name) || r.rtype == tNSEC3)
+        m.ns.any fun r => r.tag == 1 &&
+          ((r.rtype == tNSEC && r.name == e.1.name) || (r.rtype == tNSEC3 && r.name.baseName == e.1.name))
+      | _ => false
+
+/-- `C07.Nsec3WraparoundDeniesDs` (open; root cause: C09's open finding `wraparound-nsec3-covers-every-hash`, the inverted
+wrap-around arm of `find_covering_record`): a negative DS exchange whose authority section holds the wrap-around NSEC3 record
+(`Rec.alg = 1` for NSEC3 records: owner hash > next hashed owner, the last record of its chain) of a zone properly above the
+queried name -/
+def wraparoundNsec3InDsDenial (trace : List (Query × UpOut)) : Bool :=
+  trace.any fun e =>
+    e.1.qtype == tDS &&
+      match e.2 with
+      | .ok m | .noRecords m =>
+        m.an.isEmpty && m.ns.any fun r =>
+          r.rtype == tNSEC3 && r.alg == 1 && r.name.baseName != e.1.name && zoneOf r.name.baseName e.1.name
       | _ => false
 
 end HickoryVerif.Chain
